@@ -79,6 +79,85 @@ func ViewOf(w *World) View {
 	v := ViewOfGenesis(g)
 	cctx, _ := w.ctx.CacheContext()
 	v.Pending, v.HasPending = w.K.GetPendingOwner(cctx)
+	// an entry exists if ANY public read path shows it: the keyed lists are the union of the
+	// export and the paginated list queries (whether the two paths agree with each other is
+	// the business of C17 and C19, not of every check that merely needs to know the state)
+	page := func(f func(req *query.PageRequest) (*query.PageResponse, error)) {
+		var next []byte
+		for i := 0; i < 1000; i++ {
+			res, err := f(&query.PageRequest{Key: next, Limit: 100})
+			if err != nil || res == nil || len(res.NextKey) == 0 {
+				return
+			}
+			next = res.NextKey
+		}
+	}
+	page(func(req *query.PageRequest) (*query.PageResponse, error) {
+		r, err := w.K.UsedNonces(cctx, &cctptypes.QueryAllUsedNoncesRequest{Pagination: req})
+		if err != nil {
+			return nil, err
+		}
+		for _, n := range r.UsedNonces {
+			v.Used[nonceKey(n.SourceDomain, n.Nonce)] = true
+		}
+		return r.Pagination, nil
+	})
+	page(func(req *query.PageRequest) (*query.PageResponse, error) {
+		r, err := w.K.Attesters(cctx, &cctptypes.QueryAllAttestersRequest{Pagination: req})
+		if err != nil {
+			return nil, err
+		}
+		for _, a := range r.Attesters {
+			if !v.hasAttester(a.Attester) {
+				v.Attesters = append(v.Attesters, a.Attester)
+			}
+		}
+		return r.Pagination, nil
+	})
+	page(func(req *query.PageRequest) (*query.PageResponse, error) {
+		r, err := w.K.PerMessageBurnLimits(cctx, &cctptypes.QueryAllPerMessageBurnLimitsRequest{Pagination: req})
+		if err != nil {
+			return nil, err
+		}
+		for _, l := range r.BurnLimits {
+			if _, ok := v.Limits[l.Denom]; !ok {
+				v.Limits[l.Denom] = l.Amount.String()
+			}
+		}
+		return r.Pagination, nil
+	})
+	page(func(req *query.PageRequest) (*query.PageResponse, error) {
+		r, err := w.K.TokenPairs(cctx, &cctptypes.QueryAllTokenPairsRequest{Pagination: req})
+		if err != nil {
+			return nil, err
+		}
+		for _, p := range r.TokenPairs {
+			if _, ok := v.Pairs[pairKey(p.RemoteDomain, p.RemoteToken)]; !ok {
+				v.Pairs[pairKey(p.RemoteDomain, p.RemoteToken)] = p.LocalToken
+			}
+		}
+		return r.Pagination, nil
+	})
+	page(func(req *query.PageRequest) (*query.PageResponse, error) {
+		r, err := w.K.RemoteTokenMessengers(cctx, &cctptypes.QueryRemoteTokenMessengersRequest{Pagination: req})
+		if err != nil {
+			return nil, err
+		}
+		for _, m := range r.RemoteTokenMessengers {
+			if _, ok := v.Messengers[m.DomainId]; !ok {
+				v.Messengers[m.DomainId] = hex.EncodeToString(m.Address)
+			}
+		}
+		return r.Pagination, nil
+	})
+	return v
+}
+
+// ExportView is the view through ExportGenesis alone (what C17 judges).
+func ExportView(w *World) View {
+	v := ViewOfGenesis(w.ExportCCTP())
+	cctx, _ := w.ctx.CacheContext()
+	v.Pending, v.HasPending = w.K.GetPendingOwner(cctx)
 	return v
 }
 
